@@ -223,6 +223,9 @@ parse_node_t *throw_away_mapping(parse_node_t *);
 /* verification hook: compiler bookkeeping trace points (event name, cursor after, allocation size) */
 extern void (*verif_compiler_trace)(const char *event, long cursor, long size);
 #define VERIF_CTRACE(ev, cur, sz) do { if (verif_compiler_trace) verif_compiler_trace ((ev), (long)(cur), (long)(sz)); } while (0)
+/* the identifier (ident_hash_elem_t *) a trace point is about, valid during the call only */
+extern void *verif_compiler_trace_subject;
+#define VERIF_CTRACE_IHE(ev, ihe, cur, sz) do { verif_compiler_trace_subject = (ihe); VERIF_CTRACE (ev, cur, sz); verif_compiler_trace_subject = 0; } while (0)
 #endif
 
 #ifndef SUPPRESS_COMPILER_INLINES
